@@ -25,7 +25,11 @@ Why(c) == CASE c.kind = "sip" -> (IF c.out = SipHash24(c.key, c.msg) THEN "" ELS
             [] c.kind = "murmur" -> (IF c.out = Murmur3(c.data, c.seed4) THEN "" ELSE "murmur3-differs")
             [] c.kind = "gcs" -> WhyGcs(c)
             [] c.kind = "member" -> (IF c.all_present THEN "" ELSE "false-negative")
-            [] c.kind = "bloompos" -> (IF c.pos = ModSmall(Strip(Murmur3(c.data, c.seed4)), c.nbits) /\ c.set THEN "" ELSE "bloom-bit-position")
+            [] c.kind = "bloompos" -> (IF c.len # c.nbits THEN "bloom-bit-field-length"
+                                       ELSE IF c.pos = ModSmall(Strip(Murmur3(c.data, c.seed4)), c.nbits) /\ c.set THEN "" ELSE "bloom-bit-position")
+            [] c.kind = "bloomhead" -> (IF c.nbits # c.size * 8 \/ c.nbytes # c.size THEN "bloom-bit-field-length"
+                                        ELSE IF c.ones # c.ones_bytes THEN "bloom-bit-field-bytes"
+                                        ELSE IF c.npayload # Len(VarintN(c.size)) + c.size + 9 \/ c.head # SubSeq(VarintN(c.size) \o <<0, 0, 0>>, 1, 3) THEN "filterload-layout" ELSE "")
             [] c.kind = "bloom" -> WhyBloom(c)
 VARIABLES i, bad
 Init == i = 1 /\ bad = <<>>
